@@ -38,6 +38,7 @@ fn main() {
         ("C12", None) => c12::run(tier, &args),
         ("C13", Some(p)) => c13::replay_file(&p),
         ("C13", None) => c13::run(tier, &args),
+        ("C13-host", _) => c13::host_child(&args),
         _ => {
             eprintln!("MACHINERY-ERROR: unknown property {id}");
             2
